@@ -27,6 +27,7 @@ BadName(n) == n = "xcomman"
 BadSub(s) == s = "xcomma"
 OddVals == {V(n, t, s) : n \in {"", "a", "xdotless", "xdigit", "xunder", "xcomman"}, t \in {"T1"}, s \in {"", "s", "xcomma", "xquote", "xback"}}
 Lower(n) == IF n = "B" THEN "b" ELSE n
+NoDupNames(q) == \A i, j \in DOMAIN q : (i # j /\ q[i].name # "" /\ q[j].name # "") => Lower(q[i].name) # Lower(q[j].name)
 Lists == UNION {[1..k -> Vals] : k \in 0..3} \cup UNION {[1..k -> OddVals \cup {V("B", "T2", "")}] : k \in 1..2}
 Representable(d) == /\ \A i \in DOMAIN d.vals : ~BadName(d.vals[i].name) /\ ~BadSub(d.vals[i].sub)
                     /\ NoDupNames(d.vals)
@@ -36,7 +37,6 @@ WF(q) == \A i, j \in DOMAIN q : i # j =>
             /\ (q[i].name # "" /\ q[j].name # "") => Lower(q[i].name) # Lower(q[j].name)
 \* lists that use a name twice (also in different casing): refused with an error
 DupLists == {<<V("a", "T1", ""), V("a", "T2", "")>>, <<V("a", "T1", ""), V("B", "T2", ""), V("b", "T1", "s")>>, <<V("B", "T1", ""), V("", "T1", ""), V("B", "T1", "s")>>}
-NoDupNames(q) == \A i, j \in DOMAIN q : (i # j /\ q[i].name # "" /\ q[j].name # "") => Lower(q[i].name) # Lower(q[j].name)
 Descs == {[vals |-> q, kind |-> "list"] : q \in {x \in Lists : WF(x)} \cup DupLists}
          \cup {[vals |-> q, kind |-> "lifted"] : q \in {<<V("", "T1", "")>>, <<V("", "T1", ""), V("", "T2", "")>>, <<V("", "T2", ""), V("", "T1", "")>>}}
 
